@@ -2,8 +2,9 @@
    the hypothesis of C01's theorem.  Per type it says what declaration guarantees (a fixed
    value conforms to its own schema, bounds are ordered, lengths are compatible, substr fits
    the alphabet) plus the exclusions that are known findings of the generator:
-     - float precision together with a bound (F06),
-     - an empty alphabet with a positive length (F07),
+     - (F06 and F07 - precision together with a bound, an empty alphabet - were repaired in the
+       code; what is left of them is a decidable side condition: the scaled bounds are finite,
+       the empty string / the substring alone satisfies the declared lengths),
      - members that admit no value where the generator may visit them (F24: all alternatives
        of an any, the element type of a typed list, required dict members, concrete elements).
    Optional dict members need not be satisfiable. *)
@@ -21,9 +22,9 @@ Definition world_ok (w : world) : Prop :=
 Definition re_total (w : world) (p : list re) : Prop :=
   forall t, exists s t', gen_re (default_cfg (Z.of_N RE_MAX_REPEAT)) (w_perm w) p t = Ok (s, t').
 
-(* precision without bounds: int(FLOAT_MIN * 10**p) .. int(FLOAT_MAX * 10**p) is a range *)
-Definition prec_free_ok (p : Z) : bool :=
-  match r_py_int (PrimFloat.mul FLOAT_MIN (scale10 p)), r_py_int (PrimFloat.mul (pymax_f FLOAT_MAX FLOAT_MIN) (scale10 p)) with
+(* with a precision: int(lo * 10**p) .. int(hi * 10**p) is a (non-empty) range of ints *)
+Definition prec_ok (lo hi : float) (p : Z) : bool :=
+  match r_py_int (PrimFloat.mul lo (scale10 p)), r_py_int (PrimFloat.mul hi (scale10 p)) with
   | Ok l, Ok r => l <=? r
   | _, _ => false end.
 
@@ -39,9 +40,10 @@ Definition sat_float (val mn mx : option float) (pr : option intv) : Prop :=
               opt_holds mn (fun m => PrimFloat.ltb x m = false) /\
               opt_holds mx (fun m => PrimFloat.ltb m x = false)
   | None =>
+      match mn, mx with Some a, Some b => PrimFloat.ltb b a = false | _, _ => True end /\
       match pr with
-      | None => match mn, mx with Some a, Some b => PrimFloat.ltb b a = false | _, _ => True end
-      | Some p => mn = None /\ mx = None /\ prec_free_ok (iz p) = true
+      | None => True
+      | Some p => prec_ok (fst (float_lo_hi mn mx)) (snd (float_lo_hi mn mx)) (iz p) = true
       end
   end.
 
@@ -61,14 +63,14 @@ Definition sat_str (w : world) (val : option pystr) (len mnl mxl : option intv) 
           match len with
           | Some k =>
               0 <= iz k /\ sub_len sub <= iz k /\ len_ok (iz k) len mnl mxl /\
-              (al = Some [] -> iz k = sub_len sub)
+              (al = Some [] -> len_ok (sub_len sub) len mnl mxl)
           | None =>
               let lo0 := opt_iz mnl STR_LEN_MIN in
               let hi0 := match mxl with Some k => iz k | None => Z.max STR_LEN_MAX lo0 end in
               let lo := match sub with Some t => Z.max lo0 (zlen t) | None => lo0 end in
               let hi := match sub with Some t => Z.max hi0 (zlen t) | None => hi0 end in
               0 <= lo /\ lo <= hi /\ opt_holds mxl (fun k => hi <= iz k) /\
-              (al = Some [] -> hi = sub_len sub)
+              (al = Some [] -> len_ok (sub_len sub) len mnl mxl)
           end
       end
   end.
